@@ -14,6 +14,8 @@ mod fam_iovec;
 mod fam_hcobs;
 mod fam_readn;
 mod fam_tlv;
+mod fam_sdeque;
+mod fam_sorted;
 mod util;
 
 use std::io::Write;
@@ -30,6 +32,8 @@ fn families() -> Vec<Box<dyn Family>> {
     v.push(Box::new(fam_tlv::TlvViewFamily));
     v.push(Box::new(fam_hcobs::HcobsEncFamily));
     v.push(Box::new(fam_hcobs::HcobsDecFamily));
+    v.push(Box::new(fam_sdeque::SDequeFamily));
+    v.push(Box::new(fam_sorted::SortedFamily));
     v
 }
 
